@@ -1,8 +1,9 @@
 """C10: see DESIGN.md section 3 C10."""
-from _ccmon import standard_plan, floor_msgs, COMMON_ASSUMPTIONS
+from _ccmon import standard_plan, floor_msgs, COMMON_ASSUMPTIONS, EVOLVE_NOTE
 
 LEVEL = "exploration"
 RULE = 'histories are generated per shard from (seed, index) by harness/src/gen.rs (weights of mode C10: 30% cleaner operations (register with 0..2-action scripts capturing Cc / Weak, clean, drop Cleanable), owners released by reference counting and inside collected cycles) plus the directed corpus harness/src/directed.rs; each is executed against the real crate with all oracles on, followed by an epilogue that releases everything and collects until quiet. distinct = distinct expanded operation lists (FNV hash); non-trivial iff a Cleaner was dropped and at least 2 cleaning actions ran in the history'
+RULE += EVOLVE_NOTE
 ASSUMPTIONS = COMMON_ASSUMPTIONS
 FLOORS = {'actions_run': 2000, 'cleaner_drops': 2000}
 
